@@ -148,6 +148,17 @@ def summary(v):
             if isinstance(st.value, ast.Constant):
                 continue
             item = ("expr", "", cond, [v.term(st.value, at=st)], lc)
+            cf = st.value.func if isinstance(st.value, ast.Call) else None
+            if isinstance(cf, ast.Attribute) and isinstance(cf.value, ast.Name) and cf.attr in ("append", "extend", "insert", "update") \
+                    and cf.value.id in ev._local_names and cf.value.id not in ev._params:
+                # grows a container that was built right here (a literal, a comprehension, list()): the element is part of
+                # that container's value wherever it is used afterwards, not an effect of its own
+                try:
+                    before = ev._name_before(cf.value.id, v.cfg.node(st), None)
+                except AnalysisError:
+                    before = None
+                if before is not None and _fresh_container(v.ctx, before):
+                    continue
             if isinstance(st.value, ast.Call) and any(k.arg == "out" and isinstance(k.value, ast.Name) and
                                                      k.value.id in ev._local_names and k.value.id not in ev._params
                                                      for k in st.value.keywords):
@@ -497,9 +508,9 @@ def _equivalent(repo_cur, repo_ref, qual):
                 out.setdefault(getattr(n, "name", "<lambda>"), []).append(ast.dump(n))
         return out
     nc, nr = nested(fc.node, repo_cur, qual), nested(fr.node, repo_ref, qual)
-    for name, dumps in nr.items():
-        if nc.get(name) != dumps:
-            return False, f"nested function {name} differs"
+    # (a nested function that differs - or is gone - is tolerated when every call of it was looked through, i.e. no term
+    # refers to it by name any more)
+    differing_nested = {name for name, dumps in nr.items() if nc.get(name) != dumps}
     if "<lambda>" in nc and "<lambda>" not in nr:
         return False, "new lambda"
     new_nested = set(nc) - set(nr)
@@ -518,6 +529,14 @@ def _equivalent(repo_cur, repo_ref, qual):
     except RecursionError:
         return False, "recursion limit"
     (xa, ea), (xb, eb) = _name_carried(ctx, *sa, "A"), _name_carried(ctx, *sb, "A")
+    if differing_nested:
+        for items in (xa, ea, xb, eb):
+            for it in items:
+                for t in [it[2]] + list(it[3]):
+                    for a in ctx.all_atoms(t):
+                        hd = ctx.atoms[a][0]
+                        if hd[0] == "sym" and hd[1].startswith("localfn:") and hd[1][8:].split("#")[0] in differing_nested:
+                            return False, f"nested function {hd[1][8:]} differs"
     # helpers that are new must have been inlined everywhere
     for items in (xa, ea):
         for it in items:
